@@ -245,6 +245,31 @@ def run_case(case, res):
                     ref = float_twin(fm2, qm, x, m.read)
                 Y = m.read(y.dequantize() if isinstance(y, QTensor) else y)
                 R = m.read(ref)
+                QI = None
+                if case["module"] == "lnorm" and a_t is not None and not a_t.is_floating_point:
+                    # the same module fed an already quantized activation (any codes, a small scale: magnitudes at which eps matters)
+                    from optimum.quanto.tensor import QBytesTensor
+
+                    codes = torch.randint(-128, 128, x.shape, dtype=torch.int8)
+                    qs = torch.tensor(5e-4, dtype=dt)
+                    m.symbolic(codes, "xq")
+                    m.symbolic(qs, "sq")
+                    xq = QBytesTensor(a_t, None, codes.size(), codes.stride(), codes, qs)
+                    try:
+                        with torch.no_grad():
+                            y2 = qm(xq)
+                            ref2 = float_twin(fm2, qm, xq.dequantize(), m.read)
+                        Y2, R2 = m.read(y2.dequantize() if isinstance(y2, QTensor) else y2), m.read(ref2)
+                        QI = (Y2.shape == R2.shape and all(a_ is b_ for a_, b_ in zip(Y2.reshape(-1), R2.reshape(-1))), codes)
+                    except Exception as e_:  # noqa
+                        QI = (False, codes)
+                        res.notes.append(f"{cfg}: quantized input: {type(e_).__name__}: {e_}")
+            if QI is not None:
+                res.query("forward-on-quantized-input-equals-float-twin", "ALG", "unsat" if QI[0] else "sat", 0.0, sub=cfg, nvars=len(m.ctx.vars))
+                if not QI[0]:
+                    e2 = dict(enc)
+                    e2["xq"] = api.enc_tensor(QI[1])
+                    res.candidate("forward-qinput", "ALG", e2)
             shape_ok = Y.shape == R.shape
             res.side_ok("forward-shape", shape_ok, f"{cfg}: {Y.shape} vs {R.shape}")
             if not shape_ok:
@@ -453,6 +478,17 @@ def replay(rec):
     if a_t is not None:
         models.set_scales(model, 0.05, 0.09)
     fm2, _ = make_module(inp["module"], inp["conf"], dt)
+    if inp.get("xq") is not None:
+        from optimum.quanto.tensor import QBytesTensor
+
+        codes = api.dec_tensor(inp["xq"])
+        xq = QBytesTensor(a_t, None, codes.size(), codes.stride(), codes, torch.tensor(5e-4, dtype=dt))
+        with torch.no_grad():
+            y2 = qm(xq)
+            ref2 = float_twin(fm2, qm, xq.dequantize(), None)
+        y2 = y2.dequantize() if isinstance(y2, QTensor) else y2
+        bad = y2.shape != ref2.shape or not torch.equal(torch.nan_to_num(y2.double()), torch.nan_to_num(ref2.double()))
+        return bool(bad), f"{inp['module']}[{inp['conf']}] on a quantized input (scale 5e-4): output {y2.flatten()[:6].tolist()} vs float twin {ref2.flatten()[:6].tolist()}", None
     try:
         with torch.no_grad():
             y = qm(x)
